@@ -34,6 +34,8 @@ def subsequence(res, G, L, residue, live, prog, k, rate):
         found = None
         for jj in range(i, len(G)):
             g = G[jj]
+            if c02.UNTYPABLE in g["args"].values():
+                continue  # no trace can exist for a call whose argument types cannot be collected
             if g["code"] is code and not c02.compare(res, g, t, prog, k):
                 found = jj
                 break
@@ -69,6 +71,8 @@ def subsequence(res, G, L, residue, live, prog, k, rate):
         else:
             bad.append(("residue-in-tracer", f"{len(unexplained)} finished frame(s) still referenced by the tracer at quiescence (rate {rate})"))
     for g in G:
+        if c02.UNTYPABLE in g["args"].values() or g["ret"] == c02.UNTYPABLE or c02.UNTYPABLE in g["yields"]:
+            continue  # no trace can be due for this call whatever the draw was: it says nothing about the sampling fraction
         if labels.get(g["qual"], "may") == "must" and c02.flavor(g["code"]) == "plain":
             res.count(f"rate{rate}:plain_must_calls")
             if g.get("_traced"):
@@ -141,16 +145,26 @@ def run(ck):
                 "    return check(i)\n\n\ndef check(i):\n    return random.random() < 2\n\n\ndef loop_seeded(n):\n    for i in range(n):\n        item(i)\n\n\n"
                 "def parse(i):\n    return i\n\n\ndef store(v):\n    return None\n\n\ndef a1(v):\n    return v\n\n\n"
                 "def a2(v):\n    return v\n\n\ndef a3(v):\n    return v\n\n\ndef loop2(n):\n    for i in range(n):\n        store(parse(i))\n\n\n"
-                "def loop5(n):\n    for i in range(n):\n        a3(a2(a1(store(parse(i)))))\n")
+                "def loop5(n):\n    for i in range(n):\n        a3(a2(a1(store(parse(i)))))\n\n\n"
+                # frames that pass the filter but belong to no findable function (generator expression, lambda, class body) right before calls
+                "def scale(v):\n    return v\n\n\ndef after_lambda(v):\n    return v\n\n\ndef after_class(v):\n    return v\n\n\n"
+                "def loop_unres(n):\n    for i in range(n):\n        t = sum(x for x in (i,))\n        scale(t)\n        (lambda q: q)(i)\n        after_lambda(i)\n"
+                "        class Tmp:\n            pass\n        after_class(i)\n")
+    must = {q: "must" for q in ("parse", "store", "a1", "a2", "a3", "loop2", "loop5", "item", "check", "loop_seeded", "scale", "after_lambda", "after_class", "loop_unres")}
     loops = [{"name": f"vfloop18_{ck.seed}_{j}", "seed": f"C18:loop:{j}", "k": 0, "rates": [2, 10], "rng_seeds": [ck.rng("loop", j).randrange(10**6)],
-              "literal": {"source": loop_src, "labels": {q: "must" for q in ("parse", "store", "a1", "a2", "a3", "loop2", "loop5", "item", "check", "loop_seeded")}, "per_function": True,
-                          "entries": [["call", "loop2(1500)"], ["call", "loop5(1500)"], ["call", "loop_seeded(1500)"]]}} for j in range(2)]
+              "literal": {"source": loop_src, "labels": must, "per_function": True,
+                          "entries": [["call", "loop2(1500)"], ["call", "loop5(1500)"], ["call", "loop_seeded(1500)"], ["call", "loop_unres(1500)"]]}} for j in range(2)]
+    # long runs for the rates whose deviation is small in relative terms (1/100) or that lie above the sizes a byte / a small table can hold
+    for j, (rate, reps) in enumerate([(100, 60000), (1000, 60000), (3, 6000), (7, 12000)] if quick else [(100, 200000), (1000, 200000), (3, 60000), (7, 60000), (10, 100000), (300, 200000)]):
+        loops.append({"name": f"vfloopbig18_{ck.seed}_{j}", "seed": f"C18:bigloop:{j}", "k": 0, "rates": [rate], "rng_seeds": [ck.rng("bigloop", j).randrange(10**6)],
+                      "literal": {"source": loop_src, "labels": must, "per_function": False, "entries": [["call", f"loop5({reps})"]]}})
     payloads = [{"programs": pin}] + [{"programs": [lp]} for lp in loops] + [{"programs": sp[i::n]} for i in range(n)]
     for r in core.pmap("vf.props.c18:work", payloads, timeout=3400):
         ck.merge(r)
     # traced fraction of plain calls against binomial bounds (6 sigma)
     fractions = {}
-    for rate in RATES:
+    allrates = sorted({int(k_[4:].split(":")[0]) for k_ in ck.counters if k_.startswith("rate") and k_.endswith(":plain_must_calls") and k_[4:].split(":")[0].isdigit()})
+    for rate in allrates:
         nn = ck.counters.get(f"rate{rate}:plain_must_calls", 0)
         tt = ck.counters.get(f"rate{rate}:plain_must_traced", 0)
         if rate in (None, 1) or not nn:
